@@ -46,7 +46,7 @@ for d in sorted(glob.glob(os.path.join(VERIF, 'seeded', 'C*'))):
                "| %s | %s | %s | %s | %s | %s |" % (name, pid, meta.get('round', 1), summ[:200] + ("…" if len(summ) > 200 else ""), cell,
                                                     (("`%s`" % keys[:100].replace('|', '\\|')) if keys else "") + ((" — " + note) if note else "")))
 out.append("")
-out.append("%d seeded changes; %d caught by their own property's quick check in at least one seeded run; the others by the check named in the last column (one of them, C16s, by none: see its row and section 9)." % (n_all, n_own))
+out.append("%d seeded changes; %d caught by their own property's quick check in at least one seeded run; the others by the check named in the last column (C16s by C03's concurrent part, added after round 10: section 9)." % (n_all, n_own))
 out.append("")
 out.append("Reverts of the fix commits (`seeded/reverts/<commit>.diff`):")
 out.append("")
